@@ -67,6 +67,8 @@ where
     type State = BodyViewState<At>;
 
     fn build(self) -> Self::State {
+        #[cfg(leptos_verif)]
+        let document = leptos::tachys::renderer::dom::document;
         let el = document().body().expect("there to be a <body> element");
         let attributes = self.attributes.build(&el);
 
@@ -142,6 +144,8 @@ where
         _cursor: &Cursor,
         _position: &PositionState,
     ) -> Self::State {
+        #[cfg(leptos_verif)]
+        let document = leptos::tachys::renderer::dom::document;
         let el = document().body().expect("there to be a <body> element");
         let attributes = self.attributes.hydrate::<FROM_SERVER>(&el);
 
@@ -173,6 +177,8 @@ where
     }
 
     fn elements(&self) -> Vec<leptos::tachys::renderer::types::Element> {
+        #[cfg(leptos_verif)]
+        let document = leptos::tachys::renderer::dom::document;
         vec![document()
             .body()
             .expect("there to be a <body> element")
